@@ -135,7 +135,7 @@ theorem keyNat_fold (u : Bytes) : ∀ (a : Nat),
         _ = 256 ^ u.length * 256 := Nat.mul_comm _ _
 
 theorem searchKeyword_space (w : Bytes) : searchKeyword (32 :: w) = 0 := by
-  unfold searchKeyword
+  rw [searchKeyword_eq]; unfold searchKeywordSpec
   have hu : goUpper (32 :: w) = 32 :: goUpper w := by
     rw [goUpper_cons_generic 32 w (by intro h; exact absurd h.1 (by decide)) (by intro h; exact absurd h.1 (by decide))]
     rfl
